@@ -41,7 +41,84 @@ def cases(tier, seed):
     nr = 14 if tier == "quick" else 1200
     out += [{"kind": "real", "seed": seed * 8887 + i, "src": ["1AJJ", "1K1I", "1BX8", "1US0", "1QBS", "1AFS", "1A1P"][i % 7]}
             for i in range(nr)]
+    # a bridged cysteine whose SG (or CB and SG) is missing from the input: the sulfur is rebuilt by heavy-atom repair
+    # and the pair must still be recognised (judged on the final coordinates, only when nothing moves afterwards)
+    nb = 14 if tier == "quick" else 1200
+    out += [{"kind": "rebuilt", "seed": seed * 8893 + i, "src": ["1AJJ", "1K1I", "1BX8", "1AJJ", "1US0", "1QBS", "1AJJ"][i % 7]}
+            for i in range(nb)]
     return out
+
+
+def run_rebuilt(spec, res):
+    from ..gen import workload
+    rng = random.Random(spec["seed"])
+    ff = common.FFS[spec["seed"] % 6]
+    m = workload.materialise({"w": "frag", "seed": spec["seed"], "ff": ff,
+                              "p": {"src": spec["src"], "nwin": 1, "long_max": 150, "water_prob": 0.0}})
+    items = m["items"]
+    text0 = pdbfmt.to_text(items)
+    P, CA, dist, partners, names = file_truth(text0)
+    pairs = sorted({tuple(sorted((i, j))) for i, ps in partners.items() if len(ps) == 1 for j in ps
+                    if partners[j] == [i] and dist[(max(i, j), min(i, j))] < 2.2})
+    if not pairs:
+        res.count("rebuilt_without_bridges")
+        return
+    # delete SG (sometimes CB too) of one partner of some bridges
+    recs = [a for a in items if isinstance(a, dict)]
+    sg_atoms = [a for a in recs if a["name"] == "SG" and a["resn"] in ("CYS", "CYX", "CYM")]
+    doomed = set()
+    for i, j in pairs:
+        if rng.random() < 0.7:
+            a = sg_atoms[rng.choice([i, j])]
+            key = (a["chain"], a["resi"], a["icode"])
+            doomed.add((key, "SG"))
+            if rng.random() < 0.3:
+                doomed.add((key, "CB"))
+    if not doomed:
+        return
+    items[:] = [a for a in items if not (isinstance(a, dict) and ((a["chain"], a["resi"], a["icode"]), a["name"]) in doomed)
+                and not (isinstance(a, dict) and a["name"].startswith("H") and
+                         any(k == (a["chain"], a["resi"], a["icode"]) for k, _n in doomed))]
+    pdbfmt.renumber(items)
+    text = pdbfmt.to_text(items)
+    opts = [f"--ff={ff}", "--nodebump"] + rng.choice([[], ["--noopt"]])
+    r = pipeline.run(text, opts, workname="c13")
+    res.count("placements")
+    res.count("rebuilt_structures")
+    if not r.ok:
+        res.count("runs_failed")
+        res.note(f"rebuilt {spec['src']} failed: {type(r.exc).__name__} {str(r.exc)[:80]}")
+        return
+    # final sulfur positions (no debumping: nothing moves after repair)
+    cys = [rr for rr in r.bio.residues if rr.name in ("CYS", "CYX", "CYM") and rr.get_atom("SG") is not None]
+    S_ = [np.array(rr.get_atom("SG").coords) for rr in cys]
+    n = len(cys)
+    d = {(i, j): float(np.linalg.norm(S_[i] - S_[j])) for i in range(n) for j in range(i)}
+    near = {i: [j for j in range(n) if j != i and d[(max(i, j), min(i, j))] < 2.7] for i in range(n)}
+    wit = {"src": spec["src"], "seed": spec["seed"], "opts": opts, "removed": sorted(f"{k[0]}{k[1]}{k[2]}:{nm}" for k, nm in doomed)}
+    res.nt("rebuilt", spec["src"], ff, tuple(opts[1:]), len(doomed))
+    res.cell("rebuilt", spec["src"], ff)
+    for i in range(n):
+        if len(near[i]) != 1 or near[near[i][0]] != [i]:
+            continue
+        j = near[i][0]
+        dij = d[(max(i, j), min(i, j))]
+        if dij >= 2.3:
+            continue                      # too close to the limit to be judged on final coordinates
+        rebuilt_here = any(k == (cys[x].chain_id, cys[x].res_seq, cys[x].ins_code) for x in (i, j) for k, _n in doomed)
+        res.count("bridged_pairs_checked")
+        if rebuilt_here:
+            res.count("bridges_with_rebuilt_sulfur_checked")
+        problems = []
+        if cys[i].has_atom("HG"):
+            problems.append("keeps HG")
+        partner = getattr(cys[i], "ss_bonded_partner", None)
+        if partner is None or partner.residue is not cys[j]:
+            problems.append(f"partner is {getattr(partner, 'residue', None)}, expected {cys[j]}")
+        if problems:
+            res.violate("bridge/not-detected-or-asymmetric" + ("/sulfur-rebuilt-by-repair" if rebuilt_here else ""),
+                        f"final SG-SG = {dij:.3f} < 2.5 but {cys[i]}: " + "; ".join(problems), **wit)
+    res.sample = {"kind": "rebuilt", "src": spec["src"], "removed": wit["removed"]}
 
 
 def run_real(spec, res):
@@ -207,6 +284,9 @@ def run_case(spec):
     res = Res()
     if spec.get("kind") == "real":
         run_real(spec, res)
+        return res
+    if spec.get("kind") == "rebuilt":
+        run_rebuilt(spec, res)
         return res
     rng = random.Random(spec["seed"])
     c = rng.random()
